@@ -31,6 +31,8 @@ def all_fields(a):
     out = []
     for v in a["variants"]:
         for f in v["fields"]:
+            if f["ty"].get("debug_only"):
+                continue  # `#[cfg(debug_assertions)]` bookkeeping: not part of the value (absent in release builds)
             out.append((v["name"], f["name"]))
     return out
 
